@@ -288,7 +288,9 @@ def neutralise(v, fs):
         if not v and 'empty-container' in fs:
             return [0]
         r = [neutralise(x, fs) for x in v]
-        return r[:9] if ('array-10-or-more' in fs and len(r) >= 10) else r
+        if 'array-10-or-more' in fs and len(r) >= 10:
+            return {b'i%d' % (i + 1): x for i, x in enumerate(r)}      # every element kept (so other features stay), no long array left
+        return r
     if isinstance(v, dict):
         if not v and 'empty-container' in fs:
             return {b'z': 0}
